@@ -111,11 +111,14 @@ impl Io {
     /// Splits complete `Content-Length` frames off `inbuf`.
     fn parse_frames(&mut self) {
         loop {
-            let Some(h) = self.inbuf.windows(4).position(|w| w == b"\r\n\r\n") else { return };
+            let Some(h) = self.inbuf.windows(4).position(|w| w == b"\r\n\r\n") else {
+                return;
+            };
             let header = String::from_utf8_lossy(&self.inbuf[..h]).to_string();
-            let len = header
-                .lines()
-                .find_map(|l| l.strip_prefix("Content-Length:").and_then(|v| v.trim().parse::<usize>().ok()));
+            let len = header.lines().find_map(|l| {
+                l.strip_prefix("Content-Length:")
+                    .and_then(|v| v.trim().parse::<usize>().ok())
+            });
             let Some(len) = len else {
                 self.received.push(json!({"unparsable_header": header}));
                 self.inbuf.clear();
@@ -125,7 +128,10 @@ impl Io {
                 return;
             }
             let body: Vec<u8> = self.inbuf.drain(..h + 4 + len).skip(h + 4).collect();
-            self.received.push(serde_json::from_slice(&body).unwrap_or_else(|_| json!({"unparsable_body": String::from_utf8_lossy(&body)})));
+            self.received.push(
+                serde_json::from_slice(&body)
+                    .unwrap_or_else(|_| json!({"unparsable_body": String::from_utf8_lossy(&body)})),
+            );
         }
     }
 
@@ -135,15 +141,27 @@ impl Io {
         let mut fds: Vec<libc::pollfd> = vec![];
         let mut roles = vec![];
         if !self.out_eof {
-            fds.push(libc::pollfd { fd: self.stdout.as_raw_fd(), events: libc::POLLIN, revents: 0 });
+            fds.push(libc::pollfd {
+                fd: self.stdout.as_raw_fd(),
+                events: libc::POLLIN,
+                revents: 0,
+            });
             roles.push(0);
         }
         if !self.err_eof {
-            fds.push(libc::pollfd { fd: self.stderr.as_raw_fd(), events: libc::POLLIN, revents: 0 });
+            fds.push(libc::pollfd {
+                fd: self.stderr.as_raw_fd(),
+                events: libc::POLLIN,
+                revents: 0,
+            });
             roles.push(1);
         }
         if let (Some(si), true) = (&self.stdin, self.written < self.pending.len()) {
-            fds.push(libc::pollfd { fd: si.as_raw_fd(), events: libc::POLLOUT, revents: 0 });
+            fds.push(libc::pollfd {
+                fd: si.as_raw_fd(),
+                events: libc::POLLOUT,
+                revents: 0,
+            });
             roles.push(2);
         }
         if fds.is_empty() {
@@ -213,7 +231,12 @@ impl Io {
         let mut threads = String::new();
         if let Ok(rd) = std::fs::read_dir(format!("/proc/{}/task", self.child.id())) {
             for t in rd.flatten() {
-                let f = |n: &str| std::fs::read_to_string(t.path().join(n)).unwrap_or_default().trim().replace('\n', " < ");
+                let f = |n: &str| {
+                    std::fs::read_to_string(t.path().join(n))
+                        .unwrap_or_default()
+                        .trim()
+                        .replace('\n', " < ")
+                };
                 threads.push_str(&format!(" [{} wchan={} stack={}]", f("comm"), f("wchan"), f("stack")));
             }
         }
@@ -233,10 +256,19 @@ impl Io {
 /// loop, analysis thread, stdout writer) hand every message over four times; on one CPU that is a
 /// context switch each, across CPUs a wake-up each, which in the sandbox costs 10x more than the
 /// work itself. Unpinned sessions keep real parallelism between the threads.
-pub fn run_session(ls: &std::path::Path, uris: &[Url; 2], s: &Session, pacing: Pacing, pin_cpu: Option<usize>) -> Result<SessionResult, String> {
+pub fn run_session(
+    ls: &std::path::Path,
+    uris: &[Url; 2],
+    s: &Session,
+    pacing: Pacing,
+    pin_cpu: Option<usize>,
+) -> Result<SessionResult, String> {
     // RUST_BACKTRACE=0: with a backtrace every panic in the server costs seconds of symbolisation
     let mut cmd = Command::new(ls);
-    cmd.env("RUST_BACKTRACE", "0").stdin(Stdio::piped()).stdout(Stdio::piped()).stderr(Stdio::piped());
+    cmd.env("RUST_BACKTRACE", "0")
+        .stdin(Stdio::piped())
+        .stdout(Stdio::piped())
+        .stderr(Stdio::piped());
     // The child inherits the affinity of the spawning thread. (Not `pre_exec`: that makes std fork
     // instead of posix_spawn, and forking a process with dozens of busy threads is a COW storm.)
     let affinity = |cpus: std::ops::Range<usize>| unsafe {
@@ -282,7 +314,11 @@ pub fn run_session(ls: &std::path::Path, uris: &[Url; 2], s: &Session, pacing: P
             Await::Response(0),
             false,
         ),
-        (json!({"jsonrpc": "2.0", "method": "initialized", "params": {}}), Await::Nothing, false),
+        (
+            json!({"jsonrpc": "2.0", "method": "initialized", "params": {}}),
+            Await::Nothing,
+            false,
+        ),
     ];
     for (i, st) in s.steps.iter().enumerate() {
         let id = i as u64 + 1;
@@ -291,10 +327,22 @@ pub fn run_session(ls: &std::path::Path, uris: &[Url; 2], s: &Session, pacing: P
             Event::Close { .. } => Await::Nothing,
             Event::Request { .. } => Await::Response(id),
         };
-        msgs.push((message(uris, &st.event, id, id as i32), aw, st.idle_after || aw == Await::Nothing));
+        msgs.push((
+            message(uris, &st.event, id, id as i32),
+            aw,
+            st.idle_after || aw == Await::Nothing,
+        ));
     }
-    msgs.push((json!({"jsonrpc": "2.0", "id": n + 1, "method": "shutdown", "params": null}), Await::Response(n + 1), false));
-    msgs.push((json!({"jsonrpc": "2.0", "method": "exit", "params": null}), Await::Nothing, false));
+    msgs.push((
+        json!({"jsonrpc": "2.0", "id": n + 1, "method": "shutdown", "params": null}),
+        Await::Response(n + 1),
+        false,
+    ));
+    msgs.push((
+        json!({"jsonrpc": "2.0", "method": "exit", "params": null}),
+        Await::Nothing,
+        false,
+    ));
 
     match pacing {
         Pacing::Burst => {
@@ -318,9 +366,16 @@ pub fn run_session(ls: &std::path::Path, uris: &[Url; 2], s: &Session, pacing: P
                         && match aw {
                             Await::Nothing => true,
                             Await::Diagnostics => {
-                                io.received.iter().filter(|v| v["method"] == "textDocument/publishDiagnostics").count() >= want
+                                io.received
+                                    .iter()
+                                    .filter(|v| v["method"] == "textDocument/publishDiagnostics")
+                                    .count()
+                                    >= want
                             }
-                            Await::Response(id) => io.received.iter().any(|v| v.get("method").is_none() && v["id"] == json!(id)),
+                            Await::Response(id) => io
+                                .received
+                                .iter()
+                                .any(|v| v.get("method").is_none() && v["id"] == json!(id)),
                         }
                 })?;
                 if *idle && !io.out_eof {
@@ -351,9 +406,16 @@ pub fn run_session(ls: &std::path::Path, uris: &[Url; 2], s: &Session, pacing: P
     let received = std::mem::take(&mut io.received);
 
     // ---- analysis ----
-    let mut res = SessionResult { exit_code: status.code(), stderr, ..Default::default() };
+    let mut res = SessionResult {
+        exit_code: status.code(),
+        stderr,
+        ..Default::default()
+    };
     let response = |id: u64| -> Vec<&Value> {
-        received.iter().filter(|v| v.get("method").is_none() && v["id"] == json!(id)).collect()
+        received
+            .iter()
+            .filter(|v| v.get("method").is_none() && v["id"] == json!(id))
+            .collect()
     };
     let shutdown_answered = response(n + 1).len() == 1;
     res.died = status.code() != Some(0) || !shutdown_answered;
@@ -361,7 +423,10 @@ pub fn run_session(ls: &std::path::Path, uris: &[Url; 2], s: &Session, pacing: P
         Event::Open { text, .. } | Event::Change { text, .. } => crate::texts::text_id(text),
         _ => String::new(),
     };
-    let diags: Vec<&Value> = received.iter().filter(|v| v["method"] == "textDocument/publishDiagnostics").collect();
+    let diags: Vec<&Value> = received
+        .iter()
+        .filter(|v| v["method"] == "textDocument/publishDiagnostics")
+        .collect();
     let mut diag_idx = 0;
     let mut first_unanswered: Option<&Event> = None;
     for (i, st) in s.steps.iter().enumerate() {
@@ -378,7 +443,10 @@ pub fn run_session(ls: &std::path::Path, uris: &[Url; 2], s: &Session, pacing: P
                             if d["params"] != *exp {
                                 res.findings.push(Finding {
                                     key: format!("stdio-diag-mismatch:{}", tid(&st.event)),
-                                    detail: format!("step {i}: server published {} but in-process published {}", d["params"], exp),
+                                    detail: format!(
+                                        "step {i}: server published {} but in-process published {}",
+                                        d["params"], exp
+                                    ),
                                     step: Some(i),
                                 });
                             }
@@ -410,7 +478,10 @@ pub fn run_session(ls: &std::path::Path, uris: &[Url; 2], s: &Session, pacing: P
                     if got != *exp {
                         res.findings.push(Finding {
                             key: format!("stdio-reply-mismatch:{}", req.kind()),
-                            detail: format!("step {i} ({:?}): server answered {got} but in-process answered {exp}", req),
+                            detail: format!(
+                                "step {i} ({:?}): server answered {got} but in-process answered {exp}",
+                                req
+                            ),
                             step: Some(i),
                         });
                     }
@@ -419,17 +490,22 @@ pub fn run_session(ls: &std::path::Path, uris: &[Url; 2], s: &Session, pacing: P
         }
     }
     if diags.len() > diag_idx {
-        res.findings.push(Finding::new("stdio-unexpected-message".into(), "more publishDiagnostics than open/change".into()));
+        res.findings.push(Finding::new(
+            "stdio-unexpected-message".into(),
+            "more publishDiagnostics than open/change".into(),
+        ));
     }
     for v in received.iter() {
         let known_noti = v["method"] == "textDocument/publishDiagnostics";
         let known_resp = v.get("method").is_none() && v["id"].as_u64().is_some_and(|id| id <= n + 1);
         if !known_noti && !known_resp {
-            res.findings.push(Finding::new("stdio-unexpected-message".into(), v.to_string()));
+            res.findings
+                .push(Finding::new("stdio-unexpected-message".into(), v.to_string()));
         }
     }
     if response(0).len() != 1 {
-        res.findings.push(Finding::new("stdio-no-initialize-reply".into(), String::new()));
+        res.findings
+            .push(Finding::new("stdio-no-initialize-reply".into(), String::new()));
     }
     if res.died {
         let panic_line = res
@@ -456,7 +532,15 @@ pub fn run_session(ls: &std::path::Path, uris: &[Url; 2], s: &Session, pacing: P
         // whatever goes wrong after a swallowed panic (empty answers while the dead thread is not
         // yet noticed, death of the server) is the one defect "nothing recovers from it"
         for f in res.findings.iter_mut() {
-            if ["stdio-reply-mismatch", "stdio-diag-mismatch", "stdio-error-reply", "stdio-server-died"].iter().any(|p| f.key.starts_with(p)) {
+            if [
+                "stdio-reply-mismatch",
+                "stdio-diag-mismatch",
+                "stdio-error-reply",
+                "stdio-server-died",
+            ]
+            .iter()
+            .any(|p| f.key.starts_with(p))
+            {
                 f.detail = format!("{}: {}", f.key, f.detail);
                 f.key = format!("server-dies-after-swallowed-panic:{o}");
             }
